@@ -253,7 +253,7 @@ AUDIT = {
             'and indel shapes; a vote family (mate disagreement at three quality relations, 1-3 further fragments with splits, majorities, '
             'ties and N copies, min_phred_score at the boundaries) judged by an independent implementation of the consensus definition; '
             'a retag family (custom tag names, reads subsets); all clauses on every read of every fragment; molecules created empty and '
-            'filled with add_fragment.',
+            'filled with add_fragment; dove_R1_distance / dove_R2_distance with a correspondingly shortened safe span.',
             'A lower-case call on a non-conversion substitution is accepted; the safe span of same-strand mates is undefined (permissive '
             'oracle); the MD-missing branch is unreachable (get_consensus swallows it first).'),
     'C16': ('Audit extension: every point under each optim variant (nb, optim, unoptimised fallback); strand-less features and names '
